@@ -176,7 +176,7 @@ Qed.
 (* ---------------------------------------------------------------- main statement *)
 
 Theorem strip_no_influence p st h :
-  wf st -> in_range (threshold_raw p (bonded_power st)) = true ->
+  wf st -> threshold_ok p (bonded_power st) = true ->
   update true p (strip st) h = update true p st h.
 Proof.
   intros Hw Hr. unfold update. rewrite bonded_power_strip, Hr, !andb_false_r.
@@ -205,7 +205,7 @@ Theorem irrelevant_votes_no_influence p st1 st2 h :
   bonded_tokens st2 = bonded_tokens st1 -> power_reduction st2 = power_reduction st1 ->
   whitelist st2 = whitelist st1 -> rates st2 = rates st1 ->
   votes (strip st2) = votes (strip st1) ->
-  in_range (threshold_raw p (bonded_power st1)) = true ->
+  threshold_ok p (bonded_power st1) = true ->
   end_block true p st2 h = end_block true p st1 h.
 Proof.
   intros Hw Ev Em Eb Ep Ewl Er Es Hr.
